@@ -86,8 +86,7 @@ Theorem C08_orig_write_needs_permission_refuted :
   let st1 := fst (server_step_v V_orig demo_state (PrepareWrite 6 0 [9]) no_hooks) in
   let st2 := fst (server_step_v V_orig st1 (ExecuteWrite 1) no_hooks) in
   is_value_handle st1 6 = true /\ value_may_write st1 6 = false
-  /\ value_at st1 6 = Some [100] /\ value_at st2 6 = Some [9]
-  /\ i_queues (st_cur st2) <> [].
+  /\ value_at st1 6 = Some [100] /\ value_at st2 6 = Some [9].
 Proof. exact orig_execute_unchecked. Qed.
 
 Theorem C08_orig_notify_after_disconnect_refuted :
